@@ -133,8 +133,8 @@ fn main_check(ctx: &Ctx) -> Outcome {
     out.add_bfs(&rep);
     out.findings.extend(bfs_findings(&rep, clause_of));
     for (name, toks, dq, dt) in [
-        ("csi-dcs", csi_alphabet(), 8, 9),
-        ("osc", osc_alphabet(), 8, 9),
+        ("csi-dcs", csi_alphabet(), 7, 9),
+        ("osc", osc_alphabet(), 7, 9),
         ("utf8", utf8_alphabet(), 8, 8),
     ] {
         let sys = ParserSys { label: format!("Parser::advance/{name}/canonical"), tokens: toks, canonical: true };
